@@ -28,9 +28,9 @@ for f in $DEMOS; do mkdir -p $(dirname $f); cp $WT/$f $f; mkdir -p $OUT/demo/$(d
 PKGS=$(for f in $DEMOS; do echo ./$(dirname $f)/; done | sort -u)
 RUNPAT=$(grep -ho '^func Test[A-Za-z0-9_]*' $DEMOS 2>/dev/null | sed 's/func //' | paste -sd'|')
 if [ -n "$PKGS" ]; then
-  ${MUT_GO:-go} test ${MUT_TAGS:+-tags $MUT_TAGS} -vet=off -count=1 -timeout ${MUT_TIMEOUT:-10m} -run "^($RUNPAT)\$" $PKGS > $OUT/demo_with_change.log 2>&1 && DEMO_WITH=pass || DEMO_WITH=fail
+  ${MUT_GO:-go} test ${MUT_TAGS:+-tags $MUT_TAGS} -vet=off -count=1 ${MUT_FLAGS:-} -timeout ${MUT_TIMEOUT:-10m} -run "^($RUNPAT)\$" $PKGS > $OUT/demo_with_change.log 2>&1 && DEMO_WITH=pass || DEMO_WITH=fail
   git apply -R $OUT/patch.diff
-  ${MUT_GO:-go} test ${MUT_TAGS:+-tags $MUT_TAGS} -vet=off -count=1 -timeout ${MUT_TIMEOUT:-10m} -run "^($RUNPAT)\$" $PKGS > $OUT/demo_without_change.log 2>&1 && DEMO_WITHOUT=pass || DEMO_WITHOUT=fail
+  ${MUT_GO:-go} test ${MUT_TAGS:+-tags $MUT_TAGS} -vet=off -count=1 ${MUT_FLAGS:-} -timeout ${MUT_TIMEOUT:-10m} -run "^($RUNPAT)\$" $PKGS > $OUT/demo_without_change.log 2>&1 && DEMO_WITHOUT=pass || DEMO_WITHOUT=fail
   git apply $OUT/patch.diff
 fi
 for f in $DEMOS; do rm -f $f; done
